@@ -142,6 +142,9 @@ def scenario_list(tier):
         if tier == "quick" and (nt + ns + three_d + z0_forcing + int_ts) % 2 == 1 and nt * ns > 2:
             continue
         out.append(dict(towers=nt, steps=ns, three_d=three_d, z0=z0_forcing, int_ts=int_ts))
+    # output levels requested in descending order (the solver supports any order)
+    out += [dict(towers=2, steps=2, three_d=True, z0=False, int_ts=False, unsorted_levels=True),
+            dict(towers=1, steps=1, three_d=True, z0=True, int_ts=True, unsorted_levels=True)]
     return out
 
 
@@ -152,7 +155,7 @@ def build(c, sc):
     names = (NAMES + ["west"])[: sc["towers"]]
     x = np.arange(nx) * 5.0
     y = np.arange(ny) * 4.0
-    zc = np.array([1.5, 7.25])
+    zc = np.array([7.25, 1.5]) if sc.get("unsorted_levels") else np.array([1.5, 7.25])
     towers = [types.SimpleNamespace(name=n, lat=c.real("lat_%s" % n), lon=c.real("lon_%s" % n), z_m=c.real("zm_%s" % n), x=0.0, y=0.0) for n in names]
     results = {}
     want = {}
@@ -280,7 +283,7 @@ def real_roundtrip(sc=None, perm=False):
     names = (NAMES + ["west"])[: sc["towers"]]
     ny, nx = 2, 3
     nlev = 2 if sc["three_d"] else None
-    x, y, zc = np.arange(nx) * 5.0, np.arange(ny) * 4.0, np.array([1.5, 7.25])
+    x, y, zc = np.arange(nx) * 5.0, np.arange(ny) * 4.0, (np.array([7.25, 1.5]) if sc.get("unsorted_levels") else np.array([1.5, 7.25]))
     towers = [types.SimpleNamespace(name=n, lat=50.0 + i * 0.013, lon=11.0 - i * 0.021, z_m=10.0 + 3 * i, x=0.0, y=0.0) for i, n in enumerate(names)]
     specials = [1e-310, -1e-310, 1e300, -1e300, 0.0, -0.0, float(np.float32(0.1)), 5e-324, 1.7976931348623157e308]
     results = {}
@@ -333,6 +336,11 @@ def real_roundtrip(sc=None, perm=False):
             bad.append("x/y coordinates")
         if nlev and not np.array_equal(ds["z"].values, zc):
             bad.append("z coordinate")
+        if nlev:
+            for k, zv in enumerate(zc):
+                a = np.asarray(ds["footprint"].sel(tower=names[0], time=str(results[names[0]][0]["timestamp"]), z=zv).values)
+                if a.tobytes() != np.asarray(results[names[0]][0]["flx"][k], np.float64).tobytes():
+                    bad.append("footprint selected by height %s is not level slot %d" % (zv, k))
     finally:
         ds.close()
     return bad
@@ -340,7 +348,8 @@ def real_roundtrip(sc=None, perm=False):
 
 def replay(rec):
     bad = []
-    for sc in (rec.get("scenario"), dict(towers=3, steps=2, three_d=True, z0=False, int_ts=False), dict(towers=2, steps=3, three_d=False, z0=True, int_ts=True)):
+    for sc in (rec.get("scenario"), dict(towers=3, steps=2, three_d=True, z0=False, int_ts=False), dict(towers=2, steps=3, three_d=False, z0=True, int_ts=True),
+               dict(towers=2, steps=2, three_d=True, z0=False, int_ts=False, unsorted_levels=True)):
         if sc:
             bad += real_roundtrip(sc)
     return dict(discrepancies=bad[:10], confirmed=bool(bad))
@@ -353,6 +362,7 @@ CANARIES = [
     ("lossy_encoding", {"io": [("\"footprint\": {\"zlib\": True, \"complevel\": 4},", "\"footprint\": {\"zlib\": True, \"complevel\": 4, \"dtype\": \"float32\"},")]}),
     ("float32_storage", {"io": [("flx_data = np.zeros((n_time, n_towers, nz_out, ny, nx))", "flx_data = np.zeros((n_time, n_towers, nz_out, ny, nx), dtype=np.float32)")]}),
     ("met_from_last_tower", {"io": [("if ti == 0:  # met params", "if ti == n_towers - 1 and t == 0:  # met params")]}),
+    ("coordinates_through_unique", {"io": [("        z = Z_coord[:, 0, 0]\n", "        z = np.unique(Z_coord)\n")]}),
     ("mol_into_wind_dir", {"io": [("wind_dir_data[t] = r[\"params\"][\"wind_dir\"]", "wind_dir_data[t] = r[\"params\"][\"mol\"]")]}),
 ]
 
@@ -374,7 +384,8 @@ def main(run):
     # contract validation of the stub against the real libraries
     bad = real_roundtrip()
     bad += real_roundtrip(dict(towers=2, steps=3, three_d=False, z0=True, int_ts=True))
-    run.validation["vectors"] += 2
+    bad += real_roundtrip(dict(towers=2, steps=2, three_d=True, z0=False, int_ts=False, unsorted_levels=True))
+    run.validation["vectors"] += 3
     if bad:
         rec = dict(property=PID, obligation="real_roundtrip", discrepancies=bad[:10])
         run.report(rec, True)
@@ -407,7 +418,8 @@ def main(run):
             run.note("canary %s not applicable" % name)
             continue
         caught = False
-        for sc in (dict(towers=3, steps=2, three_d=True, z0=False, int_ts=False), dict(towers=2, steps=3, three_d=False, z0=True, int_ts=True)):
+        for sc in (dict(towers=3, steps=2, three_d=True, z0=False, int_ts=False), dict(towers=2, steps=3, three_d=False, z0=True, int_ts=True),
+                   dict(towers=2, steps=2, three_d=True, z0=False, int_ts=False, unsorted_levels=True)):
             try:
                 if check(run, mc, sc, account=False):
                     caught = True
